@@ -509,7 +509,9 @@ class MetadorGroup(MetadorNode):
             "expand_refs": True,
             "without_attrs": without_attrs,
         }
-        self.__wrapped__.copy(source, dst_path, **copy_kwargs)  # RAW
+        # (the source is passed on as unwrapped node: the drivers only know their own objects)
+        raw_source = src_node.__wrapped__
+        self.__wrapped__.copy(raw_source, dst_path, **copy_kwargs)  # RAW
         dst_node = self[dst_path]  # exists now
 
         if src_is_dataset and not without_meta:
